@@ -85,14 +85,18 @@ class SliceAccessor(Accessor):
     def __getitem__(self, subscript):
         if isinstance(subscript, slice):
             # Acquiris Quodcumquae Rapis
+            # As segyio: slices are over line numbers, default bounds depend on the direction of the step,
+            # and line numbers which are not in the file are skipped
             start, stop, step = subscript.start, subscript.stop, subscript.step
+            increasing = step is None or step > 0
+            lowest, highest = int(min(self.keys_object)), int(max(self.keys_object))
             if step is None:
-                step = int(self.keys_object[1] - self.keys_object[0])
+                step = 1
             if start is None:
-                start = int(self.keys_object[0])
+                start = lowest if increasing else highest
             if stop is None:
-                stop = int(self.keys_object[-1] + 1)
-            return [self.values_function(index) for index in range(start, stop, step)]
+                stop = highest + 1 if increasing else lowest - 1
+            return [self.values_function(index) for index in range(start, stop, step) if index in self.keys_object]
         else:
             return self.values_function(subscript)
 
